@@ -306,6 +306,7 @@ density_sketch<T, K, A> density_sketch<T, K, A>::deserialize(std::istream& is, c
 
   if (num_to_read != 0)
     throw std::runtime_error("Error deserializing sketch: Incorrect number of items read");
+  if (levels.empty()) levels.push_back(Level(allocator)); // a sketch always has level 0, even without retained points
   if (!is.good()) throw std::runtime_error("error reading from std::istream");
 
   return density_sketch(k, dim, num_retained, n, std::move(levels), kernel);
@@ -374,6 +375,7 @@ density_sketch<T, K, A> density_sketch<T, K, A>::deserialize(const void* bytes, 
 
   if (num_to_read != 0)
     throw std::runtime_error("Error deserializing sketch: Incorrect number of items read");
+  if (levels.empty()) levels.push_back(Level(allocator)); // a sketch always has level 0, even without retained points
   if (ptr > end_ptr) throw std::runtime_error("Error deserializing sketch: Read beyond provided memory");
 
   return density_sketch(k, dim, num_retained, n, std::move(levels), kernel);
